@@ -657,7 +657,11 @@ class BaseConnector:
     ) -> Connection:
         """Get from pool or create new connection."""
         key = req.connection_key
-        if (conn := await self._get(key, traces)) is not None:
+        if (
+            key in self._conns
+            and self._available_connections(key) > 0
+            and (conn := await self._get(key, traces)) is not None
+        ):
             # If we do not have to wait and we can get a connection from the pool
             # we can avoid the timeout ceil logic and directly return the connection
             if req.proxy:
